@@ -70,3 +70,56 @@ def roundtrip(c, n, hash_name, win, layout, flavour, sid, same_cache):
         out = c.call_async(dpapi_ng.async_ncrypt_unprotect_secret, blob, cache=cache2)
     c.check(seq_eq(out, pt), "unprotect(protect(x)) == x")
     return len(refs.cat(blob))
+
+
+def _pk_params(tier):
+    algs = ["DH", "ECDH_P256", "ECDH_P384"]
+    if tier == "quick":
+        return [dict(alg=a, hash_name=HASHES[(i + 1) % 4], layout=("envelope", "trailing")[i % 2], flavour=("sync", "async")[i % 2], n=[16, 0, 33][i]) for i, a in enumerate(algs)]
+    return [dict(alg=a, hash_name=h, layout=("envelope", "trailing")[(i + j) % 2], flavour=("sync", "async")[(i + j) % 2], n=[0, 1, 16, 33, 257][(i + j) % 5])
+            for i, a in enumerate(algs) for j, h in enumerate(HASHES)]
+
+
+@harness(P, per_job=True, params=_pk_params, raises=(e2e.ScalarOutOfRange,), max_steps=3000000,
+         bounds="public-key mode (the caller only receives the group public key): DH over the RFC 5114 group, ECDH P256, ECDH P384 x hashes (3 combinations quick, all 12 thorough); the "
+         "group public key is derived by the harness playing the DC (MS-GKDI 3.1.4.1.2) from the symbolic root key for the interval containing the (fixed) clock; the blob is decrypted "
+         "by a holder of the root key; both layouts, sync and async API, symbolic plaintext of listed lengths",
+         outside="P521; other clock instants (C09/C02); bit-level crypto and DH algebra beyond commutativity",
+         must_reach=("public-key mode: unprotect(protect(x)) == x",))
+def roundtrip_public_key(c, alg, hash_name, layout, flavour, n):
+    from dpapi_ng import _client, _gkdi
+
+    from .c17 import DC
+
+    lo, _ = e2e.window(361, 9, 6, -5, -5)
+    holder = {}
+
+    def get_key(server, target_sd, root_key_id=None, l0=-1, l1=-1, l2=-1, **kw):
+        holder["asked"] = (l0, l1, l2)
+        return c.call(_gkdi.GroupKeyEnvelope.unpack, holder["dc"].envelope(target_sd, e2e.RK, 361, 9, 6))
+
+    async def aget_key(*a, **k):
+        return get_key(*a, **k)
+
+    w = e2e.new_world(c, lo, lo, extra=[(_client._sync_get_key, get_key), (_client._async_get_key, aget_key)])
+    root = c.bytes("root", 64)
+    dc = holder["dc"] = DC(c, w, None, hash_name, root, (361, 9, 6), alg, 0, "x")
+    dc.domain = "domain.test"
+    pt = e2e.plaintext(c, n)
+    sid = e2e.SIDS[1]
+    if flavour == "sync":
+        blob = c.call(dpapi_ng.ncrypt_protect_secret, pt, sid, server="dc")
+    else:
+        blob = c.call_async(dpapi_ng.async_ncrypt_protect_secret, pt, sid, server="dc")
+    if layout == "trailing":
+        blob = c.call(c.call(_blob.DPAPINGBlob.unpack, blob).pack, blob_in_envelope=False)
+    bits = {"DH": 512, "ECDH_P256": 256, "ECDH_P384": 384}[alg]
+    oracle = e2e.loaded_cache(c, root, hash_name, secret_algorithm=alg, secret_parameters=dc.secret_params(alg) or None, private_key_length=bits,
+                              public_key_length={"DH": 2048}.get(alg, bits))
+    if flavour == "sync":
+        out = c.call(dpapi_ng.ncrypt_unprotect_secret, blob, cache=oracle)
+    else:
+        out = c.call_async(dpapi_ng.async_ncrypt_unprotect_secret, blob, cache=oracle)
+    c.check(seq_eq(out, pt), "public-key mode: unprotect(protect(x)) == x")
+    c.check(holder["asked"] == (-1, -1, -1), "protect asks the DC for the current key")
+    return True
